@@ -119,14 +119,14 @@ class Pairs(Part):
 # ---------------------------------------------------------------------------------------- registration clause (enumerated)
 
 
-def _bytes_with(what: str, side: str, mid: int = 1) -> t.Tuple[bytes, t.Any]:
+def _bytes_with(what: str, side: str, mid: int = 1, nest: int = 0) -> t.Tuple[bytes, t.Any]:
     """bytes carrying the custom type addressed to ``side`` + the abstract value a registered session must produce"""
     ctrl_raw = ("generic", custom.OID_CUSTOM_CONTROL, True, (4242).to_bytes(4, "big"))
     if side == "server":
         if what == "filter":
             m = history.peer_message("searchRequest", 5, 0, 0)
-            m["filter"] = ("custom", custom.CUSTOM_FILTER_ID, b"hello")
-            want = dict(m, filter=("custom-filter", "hello"))
+            m["filter"] = history.custom_filter_in(("custom", custom.CUSTOM_FILTER_ID, b"hello"), nest)
+            want = dict(m, filter=history.custom_filter_in(("custom-filter", "hello"), nest))
         elif what == "auth":
             m = history.peer_message("bindRequest", 5, 0, 0)
             m["auth"] = ("custom", custom.CUSTOM_AUTH_ID, b"joe:secret")
@@ -156,9 +156,10 @@ class Registrations(Part):
                 for subset in itertools.combinations(["control", "filter", "auth"], n):
                     for order in itertools.permutations(subset):
                         for warm in (False, True):
-                            if k % nshards == shard:
-                                yield {"side": side, "registered": list(order), "warm": warm}
-                            k += 1
+                            for nest in range(6):
+                                if k % nshards == shard:
+                                    yield {"side": side, "registered": list(order), "warm": warm, "nest": nest}
+                                k += 1
 
     def check(self, c: t.Any, ctx: Ctx) -> t.List[Violation]:
         _LDAPError, ProtocolError = sess.errors()
@@ -202,14 +203,15 @@ class Registrations(Part):
         ctx.event(f"registered:{len(c['registered'])}")
         ctx.nontrivial(repr(c))
         whats = ["control", "filter", "auth"] if side == "server" else ["control"]
+        nest = c.get("nest", 0)
         for what in whats:
-            data, want = _bytes_with(what, side)
+            data, want = _bytes_with(what, side, nest=nest)
             for name, s0, registered in (("A", A, what in c["registered"]), ("B-before", B, False), ("C-after", Cn, False)):
                 import copy
 
                 s = copy.deepcopy(s0)
                 if side == "client":
-                    data, want = _bytes_with(what, side, s.extended_request("1.2.3"))
+                    data, want = _bytes_with(what, side, s.extended_request("1.2.3"), nest=nest)
                     s.data_to_send()
                 try:
                     r = s.receive(data)
@@ -236,12 +238,12 @@ class Registrations(Part):
             if what not in c["registered"]:
                 continue
             CB = custom.classes("B")
-            data, want = _bytes_with(what, side)
+            data, want = _bytes_with(what, side, nest=nest)
             wantB = dict(want)
             if what == "control":
                 wantB["controls"] = [("custom-control-B", True, 4242)]
             elif what == "filter":
-                wantB["filter"] = ("custom-filter-B", "hello")
+                wantB["filter"] = history.custom_filter_in(("custom-filter-B", "hello"), nest)
             else:
                 wantB["auth"] = ("custom-auth-B", "joe", "secret")
             for first in ("A", "B"):
@@ -253,7 +255,7 @@ class Registrations(Part):
                 order = [("A", a2, want), ("B", b2, wantB)] if first == "A" else [("B", b2, wantB), ("A", a2, want)]
                 for name, s, w in order:
                     if side == "client":
-                        data, w0 = _bytes_with(what, side, s.extended_request("1.2.3"))
+                        data, w0 = _bytes_with(what, side, s.extended_request("1.2.3"), nest=nest)
                         w = dict(w, id=w0["id"])
                         s.data_to_send()
                     try:
